@@ -134,8 +134,21 @@ def safe_execute(engine: Any, doc: dict) -> dict:
 
 # --------------------------------------------------------------------------- pool
 
+def die_with_parent() -> None:
+    """Ask the kernel to kill this process when its parent goes away, so that
+    a killed driver, replay or wrapper leaves no orphan spinning on a hung
+    scenario (Linux prctl PR_SET_PDEATHSIG; a no-op where unavailable)."""
+    try:
+        import ctypes
+        import signal
+        ctypes.CDLL("libc.so.6", use_errno=True).prctl(1, int(signal.SIGKILL))
+    except Exception:  # noqa: BLE001
+        pass
+
+
 def _worker(engine_name: str, conn, root: bytes, hard_cap: float) -> None:
     import importlib
+    die_with_parent()
     faulthandler.enable()
     engine = importlib.import_module(f"simkit.engines.{engine_name}")
     while True:
@@ -389,6 +402,7 @@ def warmup_in_child(engine_name: str, timeout: float = 600.0) -> None:
     """Run engine.warmup() in a forked child (fills the numba disk cache)."""
     def _go():
         import importlib
+        die_with_parent()
         eng = importlib.import_module(f"simkit.engines.{engine_name}")
         if hasattr(eng, "warmup"):
             eng.warmup()
